@@ -422,7 +422,6 @@ Q_AXES = dict(
     maxvols=['none', 'f03', 'f06', 'over'],
     runs=RUNS_Q,
 )
-ALL_KIND_C = [[k, c] for k in ('inv', 'invsq', 'comp') for c in ('asc', 'gen', 'equal', 'wide', 'zero')]
 ALL_STARTS = ['u03', 'u05', 'lo', 'hi', 'mixed', 'near_out']
 ALL_BOUNDS = ['default', 'scalar', 'vec', 'svec', 'vecs', 'pinned']
 ALL_MAXVOLS = ['none', 'f03', 'f06', 'over', 'under', 'edge_hi', 'edge_lo']
@@ -431,13 +430,15 @@ T_LEVELS = [
     ('quick-lattice x all tolerances x both stoppings',
      dict(Q_AXES, kind_c=[['inv', 'asc'], ['inv', 'wide'], ['comp', 'asc'], ['comp', 'wide']], runs=RUNS_T)),
     ('all layouts x all objectives',
-     dict(Q_AXES, layouts=list(LAYOUTS), kind_c=[[k, c] for k in ('inv', 'invsq', 'comp') for c in ('asc', 'wide')])),
+     dict(Q_AXES, layouts=list(LAYOUTS),
+          kind_c=[['inv', 'asc'], ['invsq', 'asc'], ['invsq', 'wide'], ['comp', 'wide']])),
     ('all starts x bounds x volume targets x c tables',
      dict(Q_AXES, layouts=['one3_bare', 'one6_list', 'two_2+3', 'arr3+len1'],
           kind_c=[['inv', c] for c in ('asc', 'gen', 'equal', 'wide', 'zero')] + [['comp', 'gen']],
-          starts=ALL_STARTS, bounds=ALL_BOUNDS, maxvols=ALL_MAXVOLS)),
-    ('all move limits x all objective/c tables',
-     dict(Q_AXES, layouts=['one2_list', 'one6_bare', 'two_3+3', 'three_1+2+3', 'len1+len1'], kind_c=ALL_KIND_C,
+          starts=ALL_STARTS, bounds=ALL_BOUNDS, maxvols=ALL_MAXVOLS, moves=[0.1, 1.0])),
+    ('all move limits x all objectives',
+     dict(Q_AXES, layouts=['one2_list', 'one6_bare', 'two_3+3', 'three_1+2+3', 'len1+len1'],
+          kind_c=[[k, c] for k in ('inv', 'invsq', 'comp') for c in ('gen', 'equal', 'zero')],
           moves=ALL_MOVES, starts=['u05', 'lo', 'mixed'], bounds=['scalar', 'pinned'],
           maxvols=['none', 'f06', 'under', 'edge_hi'])),
 ]
